@@ -171,6 +171,13 @@ pub fn run(w: &mut impl std::io::Write) {
                         2 => crate::es::eb_line::<2>(&mem, ri, wi, w),
                         3 => crate::es::eb_line::<3>(&mem, ri, wi, w),
                         4 => crate::es::eb_line::<4>(&mem, ri, wi, w),
+                        9 => crate::es::eb_line::<9>(&mem, ri, wi, w),
+                        10 => crate::es::eb_line::<10>(&mem, ri, wi, w),
+                        33 => crate::es::eb_line::<33>(&mem, ri, wi, w),
+                        99 => crate::es::eb_line::<99>(&mem, ri, wi, w),
+                        100 => crate::es::eb_line::<100>(&mem, ri, wi, w),
+                        101 => crate::es::eb_line::<101>(&mem, ri, wi, w),
+                        1000 => crate::es::eb_line::<1000>(&mem, ri, wi, w),
                         255 => crate::es::eb_line::<255>(&mem, ri, wi, w),
                         4096 => crate::es::eb_line::<4096>(&mem, ri, wi, w),
                         _ => false,
